@@ -496,6 +496,46 @@ def path_binding_family(ctx, rng, b, n):
                     break
 
 
+def late_rule_binding_family(ctx, rng, b, n):
+    """Rule variables are expanded late, in the scope of each build statement: a rule-level `pool = $p`, `depfile = $d`,
+    `description = $t` ... means, for every statement of that rule, what the variable is worth where the statement stands - also
+    when it got a new value in a file that was `include`d between two statements of the same rule, and also for statements
+    without bindings of their own.  Judged by the reference evaluator like every generated program."""
+    progs = []
+    for _ in range(n):
+        key = rng.choice(("pool", "pool", "depfile", "description", "rspfile", "deps", "restat"))
+        vals = {"pool": ["one", "wide", "", "nosuchpool"], "depfile": ["a.d", "b.d", "$out.d"], "description": ["D1", "D2 $out"],
+                "rspfile": ["r1.rsp", "r2.rsp"], "deps": ["gcc", "msvc", ""], "restat": ["1", ""]}[key]
+        v1, v2 = rng.sample(vals, 2) if len(vals) > 1 else (vals[0], vals[0])
+        how = rng.choice(("include", "include", "subninja", "assign"))
+        L = ["pool one", "  depth = 1", "pool wide", "  depth = 4", "p = %s" % v1, "rule r", "  command = c $in $out", "  %s = $p" % key]
+        if key == "rspfile":
+            L.append("  rspfile_content = $in")
+        own = lambda: rng.random() < 0.3
+        L.append("build a1: r s1")
+        if own():
+            L.append("  x = 1")
+        inc = "p = %s\n" % v2
+        if rng.random() < 0.4:
+            inc += "build i1: r s2\n"
+        if how == "assign":
+            L.append("p = %s" % v2)
+        else:
+            L.append("%s inc.ninja" % how)
+        L.append("build a2: r s3")
+        if own():
+            L.append("  y = 2")
+        L.append("build a3: r s4")
+        files = {"build.ninja": ("\n".join(L) + "\n").encode()}
+        if how != "assign":
+            files["inc.ninja"] = inc.encode()
+        progs.append(files)
+    res = run_probe(b, progs)
+    for p_, r_ in zip(progs, res):
+        judge(ctx, p_, r_, False)
+        ctx.count("late_rule_binding_programs")
+
+
 def run(ctx):
     quick = ctx.tier == "quick"
     rng = random.Random(ctx.seed * 7561 + 12)
@@ -514,6 +554,7 @@ def run(ctx):
         judge(ctx, p, r, k)
     same_scope_family(ctx, rng, b, 1500 if quick else 30000)
     path_binding_family(ctx, rng, b, 1500 if quick else 30000)
+    late_rule_binding_family(ctx, rng, b, 1500 if quick else 30000)
     ctx.rule = ("%d grammar-generated programs (1..4 files, include/subninja up to 3 levels) + %d single-token mutants each for half of "
                 "them; distinct_nontrivial = distinct programs on which the reference gave a definite verdict and ninja agreed (equal "
                 "graph or both reject)" % (nprog, nmut))
